@@ -304,26 +304,7 @@ class GlobalApproxTides(TidesBase):
         #    w is an ill-defined frequency. Generally it is set to the orbital motion, but some set it to the spin-rate
         #        for a world experiencing NSR (see Correia 2009).
         if self._new_tidal_frequencies:
-            if self.use_ctl:
-                # CTL Method
-                # Get CTL inputs
-                # OPT: These getters could be replaced by a set_fixed_q or set_fixed_dt since they really won't change
-                #   often. It is a waste of resources to keep calling these getters.
-                ctl_inputs = self.ctl_calc_input_getter()
-
-                # Calculate new values
-                self._ctl_complex_love_by_unique_freq = \
-                    ctl_neg_imk_helper_func(
-                        self.unique_tidal_frequencies, self.fixed_k2,
-                        self.ctl_calc_method, ctl_inputs
-                        )
-            else:
-                # CPL Method
-                self._cpl_complex_love_by_unique_freq = \
-                    cpl_neg_imk_helper_func(
-                        self.unique_tidal_frequencies, self.fixed_k2,
-                        self.fixed_q
-                        )
+            self.update_complex_love()
 
         if self._need_to_collapse_modes and call_collapse_modes:
             self.collapse_modes()
@@ -331,10 +312,44 @@ class GlobalApproxTides(TidesBase):
         # Return frequencies and tidal terms
         return self.unique_tidal_frequencies, self.tidal_terms_by_frequency
 
+    def update_complex_love(self):
+        """ Calculate the complex Love number at each unique tidal frequency using the CPL or CTL method.
+
+        This depends on the tidal frequencies and on the fixed dissipation parameters (fixed-q, fixed-dt).
+        """
+
+        if self.unique_tidal_frequencies is None:
+            # Nothing to calculate until the orbit and spin are set.
+            return
+
+        if self.use_ctl:
+            # CTL Method
+            # Get CTL inputs
+            # OPT: These getters could be replaced by a set_fixed_q or set_fixed_dt since they really won't change
+            #   often. It is a waste of resources to keep calling these getters.
+            ctl_inputs = self.ctl_calc_input_getter()
+
+            # Calculate new values
+            self._ctl_complex_love_by_unique_freq = \
+                ctl_neg_imk_helper_func(
+                    self.unique_tidal_frequencies, self.fixed_k2,
+                    self.ctl_calc_method, ctl_inputs
+                    )
+        else:
+            # CPL Method
+            self._cpl_complex_love_by_unique_freq = \
+                cpl_neg_imk_helper_func(
+                    self.unique_tidal_frequencies, self.fixed_k2,
+                    self.fixed_q
+                    )
+
     def fixed_q_dt_changed(self):
         """ The fixed tidal dissipation parameters (fixed-q or fixed-dt) have changed. Make any necessary updates. """
 
         super().fixed_q_dt_changed()
+
+        # The complex Love numbers depend on the fixed dissipation parameters; update them before collapsing modes.
+        self.update_complex_love()
 
         self.collapse_modes()
 
